@@ -492,6 +492,76 @@ def nested_per_thread_probe(scope):
         shutil.rmtree(d, ignore_errors=True)
 
 
+def factory_as_fixture_value_probe(scope):
+    """A generator fixture whose VALUE is a ThreadedFactory and which tears the factory down itself after the yield (the only way
+    the library documents): the objects two threads got from it are torn down exactly once each."""
+    import threading
+    import lemoncheesecake.api as lcc
+    from lemoncheesecake.helpers.threading import ThreadedFactory
+    sys.path.insert(0, os.path.join(lib_repo(), "tests"))
+    import helpers.runner as hr
+    hr.dump_report = lambda r: None
+    torn, lock = [], threading.Lock()
+    bar = threading.Barrier(2, timeout=5)
+
+    keep = []            # objects are kept alive: an id is never handed out twice
+
+    class Conn(ThreadedFactory):
+        def setup_object(self):
+            o = object()
+            with lock:
+                keep.append(o)
+            return o
+
+        def teardown_object(self, obj):
+            with lock:
+                torn.append(id(obj))
+    got = []
+
+    @lcc.fixture(scope=scope)
+    def pool():
+        f = Conn()
+        yield f
+        f.teardown_factory()
+
+    @lcc.suite("s")
+    class s:
+        @lcc.test("a")
+        def a(self, pool):
+            self._use(pool)
+
+        @lcc.test("b")
+        def b(self, pool):
+            self._use(pool)
+
+        def _use(self, pool):
+            try:
+                bar.wait()
+            except threading.BrokenBarrierError:
+                pass
+            o = pool.get_object()
+            with lock:
+                got.append(id(o))
+    import tempfile
+    import shutil
+    tmp = tempfile.mkdtemp(prefix="lccverif_fac_")
+    try:
+        hr.run_suite_classes([s], fixtures=[pool], tmpdir=tmp, nb_threads=2)
+    finally:
+        shutil.rmtree(tmp, ignore_errors=True)
+    hits = []
+    for o in set(got):
+        if torn.count(o) != 1:
+            hits.append(("factory-value:teardown-count", "an object handed out by a factory that is the value of a %s-scoped fixture was torn down "
+                         "%d time(s)" % (scope, torn.count(o))))
+    return hits[:1]
+
+
+def lib_repo():
+    import lib
+    return lib.REPO
+
+
 def oracle_lifetimes(case, ev):
     hits = []
     created = {}
@@ -982,6 +1052,16 @@ def check(run):
             nhits = []
         for sig, text in nhits:
             run.violation("oracle:" + sig, text, {"part": "B", "probe": "nested_per_thread_probe", "scope": scope})
+    for scope in ("session", "suite", "test"):
+        run.evaluations += 1
+        run.count("factory_as_fixture_value_probes")
+        try:
+            fhits = factory_as_fixture_value_probe(scope)
+        except Exception as e:      # noqa: BLE001
+            run.tie_broken("factory-as-fixture-value probe could not be run", detail="%s: %s" % (type(e).__name__, str(e)[-600:]))
+            fhits = []
+        for sig, text in fhits:
+            run.violation("oracle:" + sig, text, {"part": "B", "probe": "factory_as_fixture_value_probe", "scope": scope})
     for nthreads, accesses in ((1, 3), (3, 2), (4, 4)):
         run.evaluations += 1
         run.count("none_object_probes")
